@@ -24,14 +24,17 @@ from . import meshgen as G
 PROP = 'C04'
 LEAN_MODULES = ['Femio.Props.C04']
 THEOREMS = ['C04_offsets', 'C04_roundtrip', 'C04_roundtrip_printed', 'C04_tet2_first_order', 'C04_nothing_else_changes',
-            'C04_bound_to_same_ids', 'C04_type_table', 'C04_misaligned_counterexample']
+            'C04_bound_to_same_ids', 'C04_type_table', 'C04_misaligned_counterexample',
+            'C04_bound_to_same_ids_own_order', 'C04_own_order_counterexample_upstream', 'C04_lex_print_line',
+            'C04_roundtrip_lines', 'C04_roundtrip_chars', 'C04_roundtrip_chars_printed', 'C04_own_order_chars']
 PARTIAL = [
-    'C04_roundtrip_printed: parametric in (print, parse) with the hypothesis parse (print v) = some v; that Python\'s '
-    'shortest repr / float() satisfy it is trusted and exercised by the special-value stream (bit patterns compared)',
-    'token level: the character-level lexer / printer of the driver is tied by the correspondence only',
-    'binding by id is proved for variables aligned with the mesh (C04_bound_to_same_ids, any Cfg); for variables with '
-    'their own id order the repaired writer (Cfg.fixed, rowsFor by lookup) is modelled and tied by the correspondence, '
-    'the unrepaired one is refuted by C04_misaligned_counterexample; no general theorem for Cfg.fixed on misaligned input',
+    'C04_roundtrip_printed / C04_roundtrip_chars_printed: parametric in (print, parse) with the hypotheses '
+    'parse (print v) = v and valOKB (print v); that Python\'s shortest repr / float() satisfy the first is trusted and '
+    'exercised by the special-value stream (bit patterns compared); the second is a Boolean function the driver '
+    'evaluates on every printed value of every case (count "hypotheses ... hold")',
+    'character level: lines are split at newlines with empty lines skipped (pd.read_csv(sep="@", header=None) inside '
+    'StringSeries.read_file is modelled by that rule, its quoting / carriage-return handling is not modelled; '
+    'names and numerals contain neither quotes nor carriage returns)',
 ]
 RULE = ('random combinatorial mesh (1-3 element types out of line, spring, tri, quad, tet, tet2, pyr, prism, hex, hexprism; '
         'tet together with tet2 included; arbitrary distinct node / element ids incl. ~2e9; storage order ascending, '
@@ -247,21 +250,47 @@ def dec_read(rep):
         return i, t.lst(t.tok)
     nodes = t.lst(idrow)
     blocks = t.lst(lambda: (t.nat(), t.lst(lambda: (t.nat(), t.lst(t.nat)))))
-    nv = t.lst(lambda: (C.unesc(t.tok()), t.nat()))
-    nr = t.lst(idrow)
-    ev = t.lst(lambda: (C.unesc(t.tok()), t.nat()))
-    er = t.lst(idrow)
-    assert t.done()
 
-    def tables(vs, rows):
-        out, off = {}, 0
-        for n, w in vs:
-            out[n] = ([i for i, _ in rows], [[bits(float(x)) for x in r[off:off + w]] for _, r in rows])
-            off += w
+    def tabs():
+        # one table per variable, cut out of the rows by the MODEL (`readTables`, the function of the theorems)
+        out = {}
+        for _ in range(t.nat()):
+            name, w = C.unesc(t.tok()), t.nat()
+            ids = t.lst(t.nat)
+            rows = t.lst(lambda: t.lst(lambda: bits(float(C.unesc(t.tok())))))
+            assert all(len(r) == w for r in rows) or not rows
+            out[name] = (ids, rows)
         return out
+    nodal = tabs()
+    elem = tabs()
+    assert t.done()
     return {'nodes': ([i for i, _ in nodes], [[bits(float(x)) for x in r] for _, r in nodes]),
             'blocks': {G.ELEMENT_TYPES[ty]: [(i, c) for i, c in es] for ty, es in blocks},
-            'nodal': tables(nv, nr), 'elem': tables(ev, er)}
+            'nodal': nodal, 'elem': elem}
+
+
+def model_write(ctx, flag, enc):
+    """-> (hypotheses of the character-level theorems hold on this input, the file text of the model writer)"""
+    t = C.Toks(ctx.driver.ask(f'c04.write {flag} ' + enc))
+    if t.tok() != 'ok':
+        raise RuntimeError('driver: c04.write failed')
+    hyp = t.nat()
+    text = C.unesc(t.tok())
+    assert t.done()
+    return bool(hyp), text
+
+
+def check_ws_table(ctx):
+    """tie of the lexer's whitespace class: `Femio.Text.wsCodes` = the code points with str.isspace() = the regex whitespace class"""
+    import re
+    t = C.Toks(ctx.driver.ask('c04.ws'))
+    t.tok()
+    model = t.lst(t.nat)
+    py = [c for c in range(0x110000) if chr(c).isspace()]
+    rx = [c for c in range(0x3100) if re.fullmatch(r'\s', chr(c))]
+    if model != py or rx != [c for c in py if c < 0x3100]:
+        ctx.disagree('whitespace class of the model lexer != str.isspace / regex whitespace class', {}, py, model)
+    ctx.count('tie: whitespace table checked')
 
 
 # ------------------------------------------------------------------ observation of the real implementation
@@ -384,24 +413,24 @@ def run_case(ctx, case, cfg_mismatch, stream='main'):
     fd, text, obs = oracle(ctx, case, report)
     if ctx.driver is None or text is None:
         return
-    # (a) writer: real file vs model text, for each Cfg (exactly one must reproduce every file)
-    rlines = text.split('\n')
-    if rlines and rlines[-1] == '':
-        rlines.pop()
+    # (a) writer: the characters of the real file vs the characters `fileText` of the model writer, for each Cfg
+    # (exactly one must reproduce every file)
     enc = model_fem(fd)
     for name, flag in CFGS.items():
-        rep = ctx.driver.ask(f'c04.write {flag} ' + enc)
-        t = C.Toks(rep)
-        if t.tok() != 'ok':
-            raise RuntimeError('driver: ' + rep[:300])
-        mlines = t.lst(lambda: C.unesc(t.tok()))
-        if mlines != rlines:
+        hyp, mtext = model_write(ctx, flag, enc)
+        if name == 'fixed':
+            ctx.count('hypotheses of C04_roundtrip_chars / C04_own_order_chars hold (femOKB, meshOKB): ' + ('yes' if hyp else 'NO'))
+            if not hyp:
+                ctx.disagree(f'{stream}: generated case violates the Boolean hypotheses of the character-level theorems',
+                             brief(case), 'in-quantifier input', 'femOKB && meshOKB = false')
+        if mtext != text:
+            mlines, rlines = mtext.split('\n'), text.split('\n')
             k = next((i for i, (a, b) in enumerate(zip(mlines, rlines)) if a != b), min(len(mlines), len(rlines)))
             cfg_mismatch[name].append((f'{stream}: written file != model writer', brief(case),
                                        {'line': k, 'text': rlines[k:k + 2], 'n_lines': len(rlines)},
                                        {'line': k, 'text': mlines[k:k + 2], 'n_lines': len(mlines)}))
-    # (b) reader: real reader vs model reader on the real file
-    mread = dec_read(ctx.driver.ask('c04.read ' + C.enc_list(rlines, C.esc)))
+    # (b) reader: real reader vs model reader (`readText` + `readTables`) on the characters of the real file
+    mread = dec_read(ctx.driver.ask('c04.read ' + C.esc(text)))
     if obs is None or mread is None:
         if (obs is None) != (mread is None):
             ctx.disagree(f'{stream}: reader raises / model reader fails', brief(case), obs is None, mread is None)
@@ -433,6 +462,8 @@ def own_order_families(case):
 def run(ctx):
     n_cases = ctx.n(220, 2500) if ctx.driver is not None else ctx.n(400, 3000)
     cfg_mismatch = {c: [] for c in CFGS}
+    if ctx.driver is not None:
+        check_ws_table(ctx)
     for name, obj in C.corpus_cases(PROP):
         run_case(ctx, from_json(obj['input']), cfg_mismatch)
         ctx.count('corpus')
@@ -492,13 +523,10 @@ def replay(ctx, obj):
         {'signature': sig, 'what': what, 'observed': observed}))
     out = {'case': brief(case), 'failures': found, 'fails': bool(found), 'file_head': (text or '').split('\n')[:6]}
     if ctx.driver is not None and text is not None:
-        rlines = text.split('\n')[:-1]
         enc = model_fem(fd)
         out['model_writer_agrees'] = {}
         for name, flag in CFGS.items():
-            t = C.Toks(ctx.driver.ask(f'c04.write {flag} ' + enc))
-            t.tok()
-            out['model_writer_agrees']['Cfg.' + name] = t.lst(lambda: C.unesc(t.tok())) == rlines
-        mread = dec_read(ctx.driver.ask('c04.read ' + C.enc_list(rlines, C.esc)))
+            out['model_writer_agrees']['Cfg.' + name] = model_write(ctx, flag, enc)[1] == text
+        mread = dec_read(ctx.driver.ask('c04.read ' + C.esc(text)))
         out['model_reader'] = None if mread is None else {'nodes': str(mread['nodes'])[:200], 'blocks': str(mread['blocks'])[:300]}
     return out
